@@ -417,10 +417,9 @@ func VerifC28_RouteReq() {
 	target := zzverif.BytesN("dest", 1)
 	peer := boson.NewAddress(zzverif.BytesN("peer", 1))
 	req := &pb.RouteReq{Dest: target, UType: int32(zzverif.Choose("utype", 2))}
-	// Alpha 0 means "use the configured NeighborAlpha" (2 here); an explicit 2 only in the thorough tier
-	if zzverif.Param("alpha-varies", 0, 1) == 1 && zzverif.Bool("alpha-two") {
-		req.Alpha = 2
-	}
+	// Alpha is sent by the requester: 0 and negative values mean "use the configured
+	// NeighborAlpha" (2 here); explicit 2 and 3 only in the thorough tier
+	req.Alpha = []int32{0, -1, 2, 3}[zzverif.Choose("alpha", 2+2*zzverif.Param("alpha-varies", 0, 1))]
 	var recv [][][]byte
 	if zzverif.Bool("with-path") {
 		items := verifC28Path("p", ttl+1)
